@@ -291,6 +291,14 @@ fn gen_valid_history(prop: &str, seed: u64, tier: Tier) -> Scenario {
         }
     }
     sc.signal = gen_signal(&mut rng);
+    // directed extremes for the asynchronous kinds (exact-integer largest step, lowest ratio then highest)
+    if sc.config.kind.is_async() && rng.chance(0.04) {
+        let (cfg, ops) = gen_extreme_directed(&mut rng, sc.config.kind);
+        sc.config = cfg;
+        sc.ops = ops;
+        sc.profile = "extremes-directed".into();
+        return sc;
+    }
     // frame counts above 2^24 (f32 no longer exact): about 20 runs per quick batch, a few hundred per thorough one
     let p_huge = std::env::var("RSIM_HUGE_P").ok().and_then(|s| s.parse::<f64>().ok()).unwrap_or(if tier == Tier::Quick { 1.7e-4 } else { 2.5e-4 });
     if rng.chance(p_huge) {
